@@ -182,11 +182,14 @@ Definition d_set (root : doc) (d : bytes) : doc * doutcome :=
              | T_HASH => inr DNull
              | _ => inl EINVAL
              end in
-    let fin (n : doc) : doc * unit := match verdict with inl _ => (n, tt) | inr v => (v, tt) end in
-    let '(root', r) := doc_set es fin root in
-    match r with
-    | inl e => (root', dfail e)
-    | inr _ => match verdict with inl e => (root', dfail e) | inr _ => (root', dok0) end
+    match verdict with
+    | inl e => (root, dfail e)                       (* refused: the document is unchanged *)
+    | inr v =>
+      let '(root', r) := doc_set es (fun _ => (v, tt)) root in
+      match r with
+      | inl e => (root', dfail e)
+      | inr _ => (root', dok0)
+      end
     end
   end.
 
@@ -203,10 +206,7 @@ Definition d_delete (root : doc) (d : bytes) : doc * doutcome :=
 Definition d_set_subtree_then {A} (root : doc) (d : bytes) (inner : doc -> doc * A) : doc * (ecode + A) :=
   match parse d with
   | None => (root, inl EINVAL)
-  | Some (es, t, _) =>
-    if is_eof t then doc_set es inner root
-    else let '(root', r) := doc_set es (fun n => (n, tt)) root in
-         match r with inl e => (root', inl e) | inr _ => (root', inl EINVAL) end
+  | Some (es, t, _) => if is_eof t then doc_set es inner root else (root, inl EINVAL)
   end.
 
 Definition d_set_subtree (root : doc) (d : bytes) : doc * doutcome :=
